@@ -389,6 +389,8 @@ func Mix(r *core.Rng, p MixParams) *prog.Program {
 			} else {
 				st.End = "fnerr"
 			}
+		} else if r.Bool(0.08) {
+			st.End = "manual" // Begin / Commit / Rollback by hand instead of Update
 		}
 		if p.AfterP > 0 && r.Bool(p.AfterP) {
 			for j := r.Range(1, 3); j > 0; j-- {
